@@ -547,32 +547,46 @@ func (e *Engine) checkAuthorityWiring(r *Report, authStructs map[string]bool, de
 }
 
 func (e *Engine) checkCAS(r *Report, priv []*Handler) {
+	seenFn := map[*ssa.Function]bool{}
 	for _, h := range priv {
-		for _, so := range e.Effects(h.Fn) {
-			if so.Op != "set" || len(so.Fams) != 0 {
+		// the handler and the same-package helpers it calls (the per-entry body may be extracted)
+		fns := []*ssa.Function{h.Fn}
+		for f := range e.Reach([]*ssa.Function{h.Fn}, func(x *ssa.Function) bool { return x != h.Fn && fnPkgPath(x) != fnPkgPath(h.Fn) }) {
+			if f != h.Fn && fnPkgPath(f) == fnPkgPath(h.Fn) {
+				fns = append(fns, f)
+			}
+		}
+		for _, hf := range fns {
+			if seenFn[hf] {
 				continue
 			}
-			// raw Set with request-derived key
-			ck := e.FnKey(h.Fn) + ":raw-set"
-			okGuard := false
-			for _, g := range GuardsOf(so.Instr) {
-				ci, ok := NormCond(g)
-				if !ok || ci.Op != "==" || ci.Call == nil || callName(ci.Call) != "Equal" {
+			seenFn[hf] = true
+			for _, so := range e.Effects(hf) {
+				if so.Op != "set" || len(so.Fams) != 0 {
 					continue
 				}
-				// one operand is store.Get(sameKey)
-				for _, opnd := range []ssa.Value{ci.X, ci.Y} {
-					if gc, ok := opnd.(*ssa.Call); ok && callName(gc) == "Get" && gc.Common().IsInvoke() && len(gc.Common().Args) == 1 {
-						if gc.Common().Args[0] == so.Key && gc.Common().Value == so.Instr.Common().Value {
-							if BranchFailsClean(g.If, !g.Pol, func(i ssa.Instruction) bool { return e.EffectOf(i) != "" }) {
-								okGuard = true
+				// raw Set with request-derived key
+				ck := e.FnKey(h.Fn) + ":raw-set"
+				okGuard := false
+				for _, g := range GuardsOf(so.Instr) {
+					ci, ok := NormCond(g)
+					if !ok || ci.Op != "==" || ci.Call == nil || callName(ci.Call) != "Equal" {
+						continue
+					}
+					// one operand is store.Get(sameKey)
+					for _, opnd := range []ssa.Value{ci.X, ci.Y} {
+						if gc, ok := opnd.(*ssa.Call); ok && callName(gc) == "Get" && gc.Common().IsInvoke() && len(gc.Common().Args) == 1 {
+							if (gc.Common().Args[0] == so.Key || vkey(gc.Common().Args[0], 0) == vkey(so.Key, 0)) && gc.Common().Value == so.Instr.Common().Value {
+								if BranchFailsClean(g.If, !g.Pol, func(i ssa.Instruction) bool { return e.EffectOf(i) != "" }) {
+									okGuard = true
+								}
 							}
 						}
 					}
 				}
+				r.Check(okGuard, "O4", ck, e.InstrPos(so.Instr), "Set(key,…) dominated by bytes.Equal(store.Get(same key), old) with error on mismatch",
+					"raw store Set is not dominated by a compare with the current value of the same key on the same store")
 			}
-			r.Check(okGuard, "O4", ck, e.InstrPos(so.Instr), "Set(key,…) dominated by bytes.Equal(store.Get(same key), old) with error on mismatch",
-				"raw store Set is not dominated by a compare with the current value of the same key on the same store")
 		}
 	}
 }
